@@ -929,6 +929,10 @@ func splitCount(value, sep, count any) (any, error) {
 	}
 
 	if len(p) == 0 {
+		if c := utf8.RuneCountInString(s) - 1; n > c {
+			n = c
+		}
+
 		r := make([]any, n+1)
 
 		i := 0
@@ -941,6 +945,10 @@ func splitCount(value, sep, count any) (any, error) {
 
 		r[i] = s
 		return r[:i+1], nil
+	}
+
+	if c := strings.Count(s, p); n > c {
+		n = c
 	}
 
 	r := make([]any, n+1)
